@@ -20,7 +20,7 @@ from vlib.core import Stage, Violation, fail
 ID = "C11"
 MANIFEST = {
     "category": "exploration",
-    "text": "Stateful generated-input search (Hypothesis RuleBasedStateMachine): histories of up to 30 (thorough 60) steps over a pool of condition and AHB expressions with known structure - parse (cache hit or miss), parse a fresh string, send a string through the resolver (which replaces time conditions), edit a previously returned tree in place (replace / delete / append / clear / reverse children, overwrite the rule name, at any depth; overwrite the .value or .type attribute of a token), flood both caches with 1100 distinct strings so that the 1024-entry LRU evicts, evaluate under an assignment. Invariant after every step: the tree returned for a string matches the AST it was rendered from and equals the pristine deep copy of the first parse in this history; evaluation equals the reference evaluator. Caches are cleared at the start of every history.",
+    "text": "Stateful generated-input search (Hypothesis RuleBasedStateMachine): histories of up to 30 (thorough 60) steps over a pool of condition and AHB expressions with known structure - parse (cache hit or miss), parse a fresh string, send a string through the resolver (which replaces time conditions), use a string as the body of a package and expand it, edit a previously returned tree (incl. the expanded one) in place (replace / delete / append / clear / reverse children, overwrite the rule name, at any depth; overwrite the .value or .type attribute of a token), flood both caches with 1100 distinct strings so that the 1024-entry LRU evicts, evaluate under an assignment. Invariant after every step: the tree returned for a string matches the AST it was rendered from and equals the pristine deep copy of the first parse in this history; evaluation equals the reference evaluator. Caches are cleared at the start of every history.",
     "note": "Trusted: ref.match / the AHB split oracle, the reference evaluator, copy.deepcopy of lark trees, Hypothesis' stateful engine. Histories are bounded in length; the flood rule runs at most once per history.",
     "technique": "stateful / model-based property testing (rule-based state machine over parse-edit-evict histories with a cache-independent oracle)",
 }
@@ -96,6 +96,8 @@ class Interpreter:
             self.flood(op["base"])
         elif kind == "resolve":
             self.resolve(op["i"] % len(self.pool))
+        elif kind == "expand":
+            self.expand(op["i"] % len(self.pool), op.get("time", False))
         elif kind == "evaluate":
             self.evaluate(op["i"] % len(self.pool), op["assignment"])
         else:
@@ -182,6 +184,24 @@ class Interpreter:
         if not res.ok:
             fail("rejected", f"resolver raised {res!r} for the well-formed {entry['s']!r}")
         self.edited.add(index)  # from now on a re-parse of this string counts as 'after the tree was used elsewhere'
+
+    def expand(self, index, replace_time):
+        """
+        The pool string is used as the body of a package, and an expression using that package is resolved with
+        resolve_packages=True.  The expanded sub-tree is handed to the caller like any other returned tree (and may be
+        edited by later steps); what the parser returns for the body string itself must not depend on that.
+        """
+        from ahbicht.expressions.expression_resolver import parse_expression_including_unresolved_subexpressions
+        from vlib.props.c10 import _providers
+
+        entry = self.pool[index]
+        if entry["kind"] == "ahb":
+            return
+        sut.configure(_providers({"7P": entry["s"]}))
+        res = sut.call(parse_expression_including_unresolved_subexpressions, "[1] U [7P]", True, replace_time)
+        if not res.ok:
+            fail("rejected", f"resolving '[1] U [7P]' with 7P = {entry['s']!r} raised {res!r}")
+        self.trees.append((index, res.value))
 
     def flood(self, base):
         parse_cond, parse_ahb = _parsers()
@@ -303,6 +323,10 @@ def make_machine(tier, recorder):
         @rule(index=st.integers(0, 50))
         def resolve(self, index):
             self._do({"op": "resolve", "i": index})
+
+        @rule(index=st.integers(0, 50), time=st.booleans())
+        def expand(self, index, time):
+            self._do({"op": "expand", "i": index, "time": time})
 
         @precondition(lambda self: bool(self.interp.trees))
         @rule(tree=st.integers(0, 200), path=st.lists(st.integers(0, 5), max_size=4), edit=st.sampled_from(EDITS), pos=st.integers(0, 5))
